@@ -408,16 +408,24 @@ func origContainer(c Case, id string) *api.Container {
 	for _, k := range o.Rlimits {
 		ct.Rlimits = append(ct.Rlimits, mkRlimit(0, k))
 	}
-	needLinux := len(o.Devices) > 0 || len(o.Res) > 0 || o.Cgroups || o.Oom || !o.NilParts
+	needLinux := len(o.Devices) > 0 || len(o.Res) > 0 || o.Cgroups || o.Oom || !o.NilParts || o.DevRules
 	if needLinux {
 		ct.Linux = &api.LinuxContainer{Namespaces: []*api.LinuxNamespace{{Type: "pid"}, {Type: "network", Path: "/proc/1/ns/net"}}}
 		for _, k := range o.Devices {
 			ct.Linux.Devices = append(ct.Linux.Devices, mkDevice(0, k))
 		}
-		if len(o.Res) > 0 || !o.NilParts {
+		if len(o.Res) > 0 || !o.NilParts || o.DevRules {
 			ct.Linux.Resources = &api.LinuxResources{}
 			for _, f := range o.Res {
 				setResField(ct.Linux.Resources, f, 0)
+			}
+			if o.DevRules {
+				// device cgroup rules: part of the runtime's resources, no plugin can adjust them
+				ct.Linux.Resources.Devices = []*api.LinuxDeviceCgroup{
+					{Allow: false, Access: "rwm"},
+					{Allow: true, Type: "c", Major: &api.OptionalInt64{Value: 1}, Minor: &api.OptionalInt64{Value: 3}, Access: "rw"},
+					{Allow: true, Type: "b", Major: &api.OptionalInt64{Value: 8}, Access: "r"},
+				}
 			}
 		}
 		if o.Cgroups {
@@ -553,7 +561,11 @@ func (i ids) of(sym string) string {
 	if sym == "SELF" {
 		return i.self
 	}
-	return i.tgt[sym]
+	if v, ok := i.tgt[sym]; ok {
+		return v
+	}
+	// any further target symbol names a third-party container of its own ("T17" -> "t17-<n>")
+	return "x" + strings.ToLower(sym) + "-" + strings.TrimPrefix(i.self, "c")
 }
 
 func (i ids) sym(id string) string {
@@ -564,6 +576,9 @@ func (i ids) sym(id string) string {
 		if v == id {
 			return k
 		}
+	}
+	if suf := "-" + strings.TrimPrefix(i.self, "c"); strings.HasPrefix(id, "xt") && strings.HasSuffix(id, suf) {
+		return "T" + strings.TrimSuffix(strings.TrimPrefix(id, "xt"), suf)
 	}
 	return "?" + id
 }
